@@ -436,6 +436,12 @@ func (s *storage) createArchetype(node *node) *archetype {
 	}
 	if archetype.HasRelations() {
 		s.relationArchetypes = append(s.relationArchetypes, archetype.id)
+	} else {
+		// An archetype without relations has exactly one table. Create it together with the archetype:
+		// if the calling operation is rejected afterwards (e.g. for a relation on a non-relation
+		// component), no archetype without table is left behind (queries and Reset index table 0).
+		s.createTable(archetype, nil)
+		archetype = &s.archetypes[index]
 	}
 
 	return archetype
